@@ -2605,6 +2605,17 @@ example : ∃ (W : Nat → Option Tree) (t : Tree) (r : Roster) (n : Net) (evs :
   exact ⟨W, t, ro, n1, evs, hW, ht, hw.1, hn1, hp, hev, hq,
     (c06_two_servers_quiescent_request_answered W hW t ro ht hw.1 .B n1 hn1 hp evs hev).2 hq⟩
 
+/-- **a deprecated description nobody is waiting for is refused at the entrance**: when its tree id is not
+requested-and-empty (never asked for, or the tree is present) the message changes nothing — nothing is
+stored, nothing is parked for a later roster message, no roster is asked for.  (Parked, it would be
+stored by `checkPendingTreeMarshal` as soon as the present tree has expired.) -/
+theorem c06_unsolicited_description_not_parked (o : Ovl) (tm : TreeMarshal) (h : o.isRequested tm.treeId = false) :
+    handle o (.treeMarshal tm) = (o, []) := by
+  simp only [handle]
+  by_cases h0 : tm.treeId = 0
+  · simp [h0]
+  · simp [h0, h]
+
 /-! ### the code regions the model stands for
 Regenerated from /repo's source on every run (`harness/cmd/astfacts` → `OnetVerif/Shapes.lean`): the
 calls that matter for synchronisation and data flow, the lock regions and (for decision logic) the
